@@ -150,6 +150,9 @@ void UtilContext::disasm(uint32_t start, uint32_t end)
         address_min = memory.get_page_address_min(curr_start);
         address_max = memory.get_page_address_max(curr_end);
 
+        // Stay clear of the 32 bit wrap (see disasm(const char *)).
+        if ((uint32_t)address_max > 0xffffffef) { address_max = 0xffffffef; }
+
         disasm_range(
           &memory,
           flags,
@@ -167,6 +170,8 @@ void UtilContext::disasm(uint32_t start, uint32_t end)
   {
     address_min = memory.get_page_address_min(curr_start);
     address_max = memory.get_page_address_max(curr_end);
+
+    if ((uint32_t)address_max > 0xffffffef) { address_max = 0xffffffef; }
 
     disasm_range(
       &memory,
